@@ -54,7 +54,10 @@ def gen_case(rng, chk):
     b = rng.randint(1, 6)
     passes = rng.randint(0, 6)
     nex = rng.choice([0, 0, 1, 3, 8, 20])
-    row = lambda: [rng.randrange(alpha) - rng.choice([0, 0, 1]) for _ in range(dims)]
+    # a common large offset: rows that differ by a few units are then "close" in the sense of np.isclose, but they are different points
+    off = rng.choice([0, 0, 0, 100000, 1000000, -30000000])
+    chk.count("offset:" + ("none" if off == 0 else "large"))
+    row = lambda: [off + rng.randrange(alpha) - rng.choice([0, 0, 1]) for _ in range(dims)]
     existing = [row() for _ in range(nex)]
     if existing and rng.random() < 0.4:
         existing += [list(rng.choice(existing)) for _ in range(rng.randint(1, 3))]  # history with internal repeats
@@ -71,7 +74,7 @@ def gen_case(rng, chk):
             elif kind == "earlier" and script:
                 rows.append(list(rng.choice(rng.choice(script))))
             elif kind == "fresh" and rng.random() < 0.5:
-                rows.append([1000 + 10 * k + len(rows) + j for j in range(dims)])  # surely fresh
+                rows.append([off + 1000 + 10 * k + len(rows) + j for j in range(dims)])  # surely fresh
             else:
                 rows.append(row())
         script.append(rows)
@@ -161,8 +164,9 @@ def run(chk: Check):
     find_cases = []
     for _ in range(n // 4):
         dims = rng.choice([1, 2, 3]); a = rng.choice([2, 3, 5])
-        new = [[rng.randrange(a) for _ in range(dims)] for _ in range(rng.randint(0, 8))]
-        ex = [[rng.randrange(a) for _ in range(dims)] for _ in range(rng.randint(0, 8))]
+        off = rng.choice([0, 0, 100000, -2000000])
+        new = [[off + rng.randrange(a) for _ in range(dims)] for _ in range(rng.randint(0, 8))]
+        ex = [[off + rng.randrange(a) for _ in range(dims)] for _ in range(rng.randint(0, 8))]
         find_cases.append((dims, new, ex))
     reqs = [req(p, b, d, ex, sc) for (d, b, p, ex, sc) in cases]
     for dims, new, ex in find_cases:
@@ -171,7 +175,13 @@ def run(chk: Check):
     answers = lean_run(reqs)
 
     for (dims, b, passes, existing, script), ans in zip(cases, answers):
-        smp, out, warned, hist_ok = run_real(b, passes, dims, existing, script)
+        try:
+            smp, out, warned, hist_ok = run_real(b, passes, dims, existing, script)
+        except Exception as e:  # noqa: BLE001  (an exception of the code under test is an outcome, not a harness error)
+            chk.case([dims, b, passes, existing, script], True, {"batch_size": b, "passes": passes, "raised": type(e).__name__})
+            chk.fail(f"sample() raised {type(e).__name__}: {str(e)[:120]} on a scripted draw sequence",
+                     {"case": {"dims": dims, "b": b, "passes": passes, "existing": existing, "script": script}})
+            continue
         runs = []
         impl = (f"samples {rows_s(out.tolist())} | requests {','.join(str(r) for r in smp.requests)}")
         model_main = ans.split(" | runs ")[0]
@@ -209,7 +219,11 @@ def replay(path: Path) -> int:
         c = fi.get("case")
         if not c or c.get("find"):
             continue
-        smp, out, warned, _ = run_real(c["b"], c["passes"], c["dims"], c["existing"], c["script"])
+        try:
+            smp, out, warned, _ = run_real(c["b"], c["passes"], c["dims"], c["existing"], c["script"])
+        except Exception as e:  # noqa: BLE001
+            print("REPLAY", fi["what"][:120], "-> still fails (raises", type(e).__name__ + ")"); bad += 1
+            continue
         errs = oracle(c["b"], c["passes"], c["existing"], c["script"], out, smp, warned)
         print("REPLAY", fi["what"][:120], "->", "still fails" if errs else "passes now")
         bad += bool(errs)
